@@ -57,6 +57,11 @@ def gen_obj(g, depth, D, Rmax=4):
         f = C.gen_factor(g, fk, Rf, D)
         if fk == "pdf":
             f["ctor"] = "Sigma"
+        # negative rank-one weights where the operand's precision is known from the description (a leaf, possibly warmed;
+        # a density leaf with a pending update is left alone): the product stays positive definite
+        leaf = a["args"][0] if a["op"] == "warm" else a
+        if fk == "onerank" and leaf["op"] in ("measure", "pdf") and not leaf["par"].get("upd"):
+            C.neg_weights(g, leaf["par"], f)
         return dict(op=kind, ty="M", R=Rn, D=D, upd=bool(g.randint(0, 1)), star=(kind == "mul" and g.randint(0, 3) == 0),
                     f=f, fwarm=(g.choice(WARMS) if fk in ("measure", "pdf") and g.randint(0, 1) else None), args=[a])
     if kind == "slice":
@@ -140,6 +145,9 @@ def gen_descs(g, tier):
                     f = C.gen_factor(g, fk, Rf, D)
                     if fk == "pdf":
                         f["ctor"] = "Sigma"
+                    leaf = a["args"][0] if a["op"] == "warm" else a
+                    if fk == "onerank" and not leaf["par"].get("upd"):
+                        C.neg_weights(g, leaf["par"], f)         # a third of the rank-one factors get some negative weights
                     prog = dict(op=op, ty="M", R=(R1 * Rf if op == "mul" else max(R1, Rf)), D=D, upd=upd, star=False, f=f, fwarm=None, args=[a])
                     if g.randint(0, 1):
                         prog = dict(op="warm", ty="M", R=prog["R"], D=D, q="integrate", args=[prog])
